@@ -27,7 +27,7 @@ use std::collections::BTreeMap;
 use std::io::{self, Write};
 use std::str::FromStr;
 use std::time::{Duration, UNIX_EPOCH};
-use std::sync::Mutex;
+use std::sync::{Arc, Mutex};
 use bcder::Mode;
 use bcder::encode::{PrimitiveContent, Values};
 use chrono::{DateTime, TimeDelta, Utc};
@@ -321,6 +321,113 @@ impl Signer for PatternSigner {
     fn rand(&self, target: &mut [u8]) -> Result<(), io::Error> { let s = self.stream(target.len()); target.copy_from_slice(&s); Ok(()) }
 }
 
+//------------ subjects and predecessors for the history dimension -----------
+
+type Act = Arc<dyn Fn() -> String + Send + Sync>;
+
+fn act(name: &str, f: impl Fn() -> String + Send + Sync + 'static) -> (String, Act) { (name.to_string(), Arc::new(f)) }
+
+/// Runs an action under the panic guard and returns its observation.
+fn observe(a: &Act) -> String { guard(|| a()).unwrap_or_else(|p| format!("PANIC {p}")) }
+
+/// Runs `f` on a fresh OS thread (own thread-locals) and returns its result.
+fn on_fresh_thread<T: Send + 'static>(f: impl FnOnce() -> T + Send + 'static) -> T {
+    std::thread::Builder::new().stack_size(1 << 20).spawn(f).expect("spawn").join().expect("history thread does not panic: every action is guarded")
+}
+
+fn obs_time(tag: u8, content: &'static str) -> String {
+    let b = tlv(tag, content.as_bytes());
+    format!("take_from={:?} take_opt_from={:?}", lib_take(&b), lib_take_opt(&b))
+}
+
+/// Representative evaluations of every oracle family, each reduced to a
+/// comparable text. Used as subjects of the history space and as the
+/// observation set of the TZ runs; none depends on the current time except
+/// through windows decades wide.
+fn subjects() -> Vec<(String, Act)> {
+    let mut v: Vec<(String, Act)> = Vec::new();
+    for (tag, c) in [(UTC, "200101123405Z"), (UTC, "500101000000Z"), (UTC, "491231235959Z"), (GEN, "20240229120000Z"), (GEN, "20240201000000Z"), (GEN, "99991231235959Z"), (GEN, "00010101000000Z"),
+        (GEN, "20240133120000Z"), (GEN, "20241301000000Z"), (GEN, "20230229000000Z"), (GEN, "20240230000000Z"), (GEN, "2024+201000000Z"), (GEN, "20240201240000Z"), (GEN, "20240201235960Z"),
+        (UTC, "20240201000000Z"), (GEN, "240201000000Z"), (GEN, "2024020100000"), (GEN, "20240201000000ZZ"), (0x16, "20240201000000Z"), (UTC, "240132120000Z"), (UTC, "241701120000Z")] {
+        v.push(act(&format!("decode {tag:02x} {c:?}"), move || obs_time(tag, c)));
+    }
+    v.push(act("Validity::take_from valid", || { let mut b = tlv(UTC, b"240201000000Z"); b.extend(tlv(GEN, b"20500101000000Z")); let b = tlv(0x30, &b);
+        format!("{:?}", Mode::Der.decode(&b[..], |c| Validity::take_from(c)).map(|v| (inst(v.not_before()), inst(v.not_after()))).map_err(|_| ())) }));
+    v.push(act("Validity::take_from second member invalid", || { let mut b = tlv(UTC, b"240201000000Z"); b.extend(tlv(GEN, b"20500133000000Z")); let b = tlv(0x30, &b);
+        format!("{:?}", Mode::Der.decode(&b[..], |c| Validity::take_from(c)).map(|v| (inst(v.not_before()), inst(v.not_after()))).map_err(|_| ())) }));
+    for ts in [0i64, 1706745600, 2524607999, 2524608000, -62135596800, 253402300799, 951825600] {
+        v.push(act(&format!("encode {ts}"), move || { let t = mk_time(ts, 0); let mut b = Vec::new(); lib_encode_varied(t, &mut b);
+            let mut g = Vec::new(); t.encode_generalized_time().write_encoded(Mode::Der, &mut g).unwrap();
+            let mut w = Vec::new(); Validity::new(t, mk_time(ts.min(253402300000) + 799, 0)).encode().write_encoded(Mode::Der, &mut w).unwrap();
+            format!("{} {} {} display={} rfc3339={} debug={:?}", hex(&b), hex(&g), hex(&w), *t, t.to_rfc3339(), t) }));
+    }
+    for txt in ["2016-12-31T23:59:60Z", "2024-02-29T12:00:00+01:00", "2024-02-01 00:00:00 UTC", "2024-02-30T00:00:00Z", "1999-12-31T23:59:59.5-05:30", "not a time"] {
+        v.push(act(&format!("Time::from_str {txt:?}"), move || format!("{:?}", Time::from_str(txt).map(|t| { let mut b = Vec::new(); lib_encode_varied(t, &mut b); (inst(t), hex(&b)) }).map_err(|_| ()))));
+    }
+    v.push(act("Time::utc / years_from_date", || { let t = Time::utc(2024, 2, 29, 23, 59, 59); format!("{:?} {:?} {:?}", inst(t), inst(Time::years_from_date(1, *t)), inst(Time::years_from_date(-4, *t))) }));
+    v.push(act("serde Time / Validity", || format!("{:?} {:?}", serde_json::to_string(&mk_time(1706745600, 5)).ok(), serde_json::from_str::<Validity>(&serde_json::to_string(&Validity::new(mk_time(0, 0), mk_time(1706745600, 0))).unwrap()).map(|v| inst(v.not_after())).map_err(|_| ()))));
+    v.push(act("verify_at", || { let w = Validity::new(mk_time(1000, 0), mk_time(2000, 0));
+        format!("{} {} {} {} {}", w.verify_at(mk_time(999, 999_999_999)).is_ok(), w.verify_at(mk_time(1000, 0)).is_ok(), w.verify_at(mk_time(2000, 0)).is_ok(), w.verify_at(mk_time(2000, 1)).is_ok(),
+            Validity::new(mk_time(2000, 0), mk_time(1000, 0)).verify_at(mk_time(1500, 0)).is_ok()) }));
+    v.push(act("verify() on windows decades wide", || { let (a, b, c, d) = (mk_time(946684800, 0), mk_time(978307200, 0), mk_time(4102444800, 0), mk_time(4133980800, 0));
+        format!("{} {} {} {}", Validity::new(a, c).verify().is_ok(), Validity::new(a, b).verify().is_ok(), Validity::new(c, d).verify().is_ok(), Validity::new(c, a).verify().is_ok()) }));
+    v.push(act("trim", || { let t = Validity::new(mk_time(10, 0), mk_time(50, 0)).trim(Validity::new(mk_time(30, 0), mk_time(90, 0))); format!("{:?} {:?}", inst(t.not_before()), inst(t.not_after())) }));
+    for der in ["020100", "02020080", "020180", "0202007f", "02147fffffffffffffffffffffffffffffffffffffff", "02150080000000000000000000000000000000000000ff", "0200", "0a0101"] {
+        v.push(act(&format!("Serial::take_from {der}"), move || format!("{:?}", lib_serial_take(&rpki_verif::unhex(der)).map(|s| (s.to_string(), hex(&lib_serial_der(s)))))));
+    }
+    for txt in ["0", "255", "730750818665451459101842416358141509827966271487", "730750818665451459101842416358141509827966271488", "+1", "", "12a", "00000000000000000000000000000000000000000000000000000000007"] {
+        v.push(act(&format!("Serial::from_str {txt:?}"), move || format!("{:?}", Serial::from_str(txt).map(|s| (hex(&s.into_array()), s.to_string(), format!("{s:>12}"), format!("{s:?}"))).map_err(|_| ()))));
+    }
+    v.push(act("Serial::from(u64/u128) and order", || { let (a, b) = (Serial::from(u64::MAX), Serial::from(1u128 << 64)); format!("{a} {b} {:?} {}", a.cmp(&b), a == b) }));
+    v.push(act("Serial::short_random(pattern)", || format!("{:?}", Serial::short_random(&PatternSigner { start: 0xA5, step: 1 }, 12).map(|s| hex(&s.into_array())).map_err(|_| ()))));
+    v
+}
+
+/// Operations that leave by every exit path: successes on other values,
+/// failures at every stage, writers failing after every k, panics.
+fn predecessors(thorough: bool) -> Vec<(String, Act)> {
+    let mut v: Vec<(String, Act)> = Vec::new();
+    // successful decodes of every real date of one leap and one ordinary year
+    for y in if thorough { vec![2024i64, 2023, 2000, 1900] } else { vec![2024, 2023] } { for mo in 1..=12u32 { for d in 1..=dim(y, mo) {
+        v.push(act(&format!("decode ok {y:04}-{mo:02}-{d:02}"), move || { let b = model_encode(y, mo, d, 43200, Some(GEN)); format!("{:?}", lib_take(&b)) }));
+        if d == 1 || d == dim(y, mo) { v.push(act(&format!("decode ok UTCTime/take_opt {y:04}-{mo:02}-{d:02}"), move || { let b = model_encode(y, mo, d, 1, Some(UTC)); format!("{:?}", lib_take_opt(&b)) })); }
+    }}}
+    // decode failures at every stage of the string
+    let seed = "20240201120000Z";
+    for pos in 0..seed.len() { for ch in ['+', 'x', '9'] {
+        v.push(act(&format!("decode with {ch:?} at {pos}"), move || { let mut c = seed.as_bytes().to_vec(); c[pos] = ch as u8; let b = tlv(GEN, &c); format!("{:?} {:?}", lib_take(&b), lib_take_opt(&b)) }));
+    }}
+    for l in 0..seed.len() { v.push(act(&format!("decode truncated to {l}"), move || { let b = tlv(GEN, &seed.as_bytes()[..l]); format!("{:?} {:?}", lib_take(&b), lib_take_opt(&b)) })); }
+    for l in 0..36usize { v.push(act(&format!("Validity::take_from of a TLV cut at {l}"), move || { let mut b = tlv(UTC, b"240201000000Z"); b.extend(tlv(GEN, b"20500101000000Z")); let b = tlv(0x30, &b);
+        format!("{:?}", Mode::Der.decode(&b[..l.min(b.len())], |c| Validity::take_from(c)).is_ok()) })); }
+    // encoders into sinks that fail after every k octets
+    for k in 0..=36usize { for hard in [false, true] {
+        v.push(act(&format!("encode Time / Validity / Serial into a sink {} after {k}", if hard { "breaking" } else { "full" }), move || {
+            let mk = || Sink { k: usize::MAX, first_one: false, interrupt: false, capacity: if hard { None } else { Some(k) }, fail_after: if hard { Some(k) } else { None }, got: Vec::new() };
+            let t = mk_time(1706745600, 0);
+            let (mut a, mut b, mut c, mut d) = (mk(), mk(), mk(), mk());
+            format!("{} {} {} {}", t.encode_varied().write_encoded(Mode::Der, &mut a).is_ok(), Validity::new(t, mk_time(2524608000, 0)).encode().write_encoded(Mode::Der, &mut b).is_ok(),
+                Serial::from(u128::MAX).encode().write_encoded(Mode::Der, &mut c).is_ok(), t.encode_generalized_time().write_encoded(Mode::Der, &mut d).is_ok())
+        }));
+    }}
+    // text failures at every position, overflows
+    let max = "730750818665451459101842416358141509827966271487";
+    for pos in 0..max.len() { v.push(act(&format!("Serial::from_str with 'x' at {pos}"), move || { let mut t = max.as_bytes().to_vec(); t[pos] = b'x'; format!("{:?}", Serial::from_str(std::str::from_utf8(&t).unwrap()).is_ok()) })); }
+    for n in [48usize, 49, 50, 64, 200] { v.push(act(&format!("Serial::from_str of {n} nines"), move || format!("{:?}", Serial::from_str(&"9".repeat(n)).is_ok()))); }
+    for l in 0..24usize { v.push(act(&format!("Serial::take_from of {l} content octets"), move || { let mut c = vec![0x11u8; l]; if l > 0 { c[0] = 0x7f } format!("{:?}", lib_serial_take(&tlv(2, &c)).is_ok()) })); }
+    // panicking exits
+    v.push(act("panic: Serial::short_random(len 21)", || format!("{:?}", guard(|| Serial::short_random(&PatternSigner { start: 1, step: 1 }, 21).is_ok()).is_err())));
+    v.push(act("panic: Time::utc(2023-02-29)", || format!("{:?}", guard(|| inst(Time::utc(2023, 2, 29, 0, 0, 0))).is_err())));
+    // clock readers and verifiers
+    v.push(act("Time::now / tomorrow / next_year", || { let _ = (Time::now(), Time::tomorrow(), Time::next_year(), Validity::from_secs(5)); String::new() }));
+    v.push(act("verify() failing (expired)", || format!("{}", Validity::new(mk_time(0, 0), mk_time(1, 0)).verify().is_ok())));
+    v.push(act("verify() failing (not yet valid)", || format!("{}", Validity::new(mk_time(4102444800, 0), mk_time(4102444801, 0)).verify().is_ok())));
+    v.push(act("verify_at failing", || format!("{}", Validity::new(mk_time(5, 0), mk_time(1, 0)).verify_at(mk_time(3, 0)).is_ok())));
+    // every subject is also a predecessor
+    v.extend(subjects().into_iter().map(|(n, a)| (format!("subject: {n}"), a)));
+    v
+}
+
 //------------ reference big numbers for Serial ----------------------------
 
 /// Decimal text of a big-endian unsigned octet string (base 10^9 limbs).
@@ -403,6 +510,12 @@ fn serial_arrays(max_nonzero: usize) -> Vec<[u8; 20]> {
 }
 
 fn main() {
+    // child mode of the TZ runs: print the observation of every subject and leave
+    if std::env::args().any(|a| a == "--c17-observe") {
+        rpki_verif::engine::report::install_quiet_panic_hook();
+        for (name, a) in subjects() { println!("{name}\t{}", observe(&a).replace('\n', " ")); }
+        return
+    }
     let ctx = Ctx::new("C17", "exploration");
     ctx.assume("the proleptic Gregorian calendar without leap seconds is the specification of 'calendar second'; RFC 5280 4.1.2.5 is the specification of the two time forms");
     ctx.assume("bcder's TLV framing (tag, definite length) is trusted; only the 2-octet-header forms are fed to the time decoders");
@@ -425,13 +538,13 @@ fn main() {
 
     // ---------------------------------------------------------------- (1)
     let sods_all: Vec<u32> = if thorough {
-        // every hour boundary (first, second and last second of the hour), every 5th
-        // minute of hour 12, every 5th second of 12:34 (every single second of the
+        // every hour boundary (first and last second of the hour), every 10th
+        // minute of hour 12, every 10th second of 12:34 (every single second of the
         // day is covered on 8 days by the next space)
         let mut v = vec![0u32, 1, 59, 60, 61, 86398, 86399];
-        for h in 0..24u32 { v.extend([h * 3600, h * 3600 + 1, h * 3600 + 3599]) }
-        for m in (0..60u32).step_by(5) { v.push(12 * 3600 + m * 60) }
-        for s in (0..60u32).step_by(5) { v.push(12 * 3600 + 34 * 60 + s) }
+        for h in 0..24u32 { v.extend([h * 3600, h * 3600 + 3599]) }
+        for m in (0..60u32).step_by(10) { v.push(12 * 3600 + m * 60) }
+        for s in (0..60u32).step_by(10) { v.push(12 * 3600 + 34 * 60 + s) }
         v.sort(); v.dedup(); v
     } else { vec![0, 1, 43200, 86398, 86399] };
     let sp = ctx.space("time.calendar_sweep",
@@ -821,7 +934,7 @@ fn main() {
     // ---------------------------------------------------------------- (9)
     let arrays = serial_arrays(3);
     let sp = ctx.space("serial.values",
-        "0 and every 20-octet array with 1..3 non-zero octets drawn from {01,7F,80,FF} at any positions: from_array / from_slice accept iff the top bit is clear; Display equals the reference decimal (non-zero values), Display -> FromStr and reference decimal -> FromStr are identities; DER from the library equals the reference minimal INTEGER and both decode back; an array with the top bit set must not decode from its 21-octet INTEGER; non-trivial = every array (distinct by construction)");
+        "0 and every 20-octet array with 1..3 non-zero octets drawn from {01,7F,80,FF} at any positions: from_array / from_slice accept iff the top bit is clear; Display equals the reference decimal (non-zero values), Display -> FromStr and reference decimal -> FromStr are identities, also when Display is called with width, alignment, fill, zero, sign and alternate flags (the trimmed text must read back); DER from the library equals the reference minimal INTEGER and both decode back; an array with the top bit set must not decode from its 21-octet INTEGER; non-trivial = every array (distinct by construction)");
     arrays.par_chunks(512).for_each(|chunk| {
         let mut lf = Lf::new(&ctx); let mut oc = Oc::new();
         for a in chunk {
@@ -865,6 +978,11 @@ fn main() {
                         bump(&mut oc, "nonzero");
                     } else { bump(&mut oc, if txt.is_empty() { "zero-displayed-as-empty-string" } else { "zero" }) }
                     if back != Some(s) { lf.fail("C17.serial.text.roundtrip", wit, || format!("Display {txt:?} parses back to {:?}", back)) }
+                    // call parameters: width / alignment / fill / sign / alternate flags must not change what the text says
+                    for (spec, shown) in [(">60", format!("{s:>60}")), ("<60", format!("{s:<60}")), ("^61", format!("{s:^61}")), ("*^55", format!("{s:*^55}")), ("060", format!("{s:060}")), ("+", format!("{s:+}")), ("#", format!("{s:#}")), ("1", format!("{s:1}"))] {
+                        let core = shown.trim_matches(|c| c == ' ' || c == '*');
+                        if Serial::from_str(core).ok() != Some(s) || (a != [0u8; 20] && core.trim_start_matches('0') != dec) { lf.fail("C17.serial.text.format_spec", || format!("{} spec={{:{spec}}}", wit()), || format!("formatted as {shown:?}, which does not read back as {dec}")) }
+                    }
                     if parsed != Some(s) { lf.fail("C17.serial.text.parse", wit, || format!("decimal {dec} parses to {:?}", parsed)) }
                     if lder != der { lf.fail("C17.serial.der.minimal", wit, || format!("library wrote {} but the minimal INTEGER is {}", hex(&lder), hex(&der))) }
                     match guard(|| (lib_serial_take(&der), lib_serial_take(&lder))) {
@@ -884,7 +1002,7 @@ fn main() {
 
     // ---------------------------------------------------------------- (10)
     let sp = ctx.space("serial.text",
-        "decimal strings of 0,1,9,10,255,256,2^63,2^64-1,2^64,2^127,2^128,2^158,2^159-2,2^159-1,2^159,2^159+1,2^160-1,2^160, 10^z and 10^z-1 for every z in 1..=64, 9..9 and 0..07 of 127..65536 digits, each plain and with prefixes + - space 0 00 0x, suffixes space newline L .0, an inner _ , space, non-ASCII digits, and the last digit +-1: FromStr accepts iff all characters are ASCII digits and the value is < 2^159 and then equals the value; the empty string is not judged; non-trivial = every string (deduplicated)");
+        "decimal strings of 0,1,9,10,255,256,2^63,2^64-1,2^64,2^127,2^128,2^158,2^159-2,2^159-1,2^159,2^159+1,2^160-1,2^160, 10^z and 10^z-1 for every z in 1..=64, 9..9 and 0..07 of 127..65536 digits, each plain and with prefixes + - space 0 00 0x, suffixes space newline L .0, an inner _ , space, non-ASCII digits, and the last digit +-1: FromStr accepts iff all characters are ASCII digits and the value is < 2^159 and then equals the value; serde Deserialize of the same text as a JSON string gives the verdict and value of FromStr, Serialize writes the Display text; the empty string is not judged; non-trivial = every string (deduplicated)");
     {
         let pow2 = |k: usize| -> Vec<u8> { let mut v = vec![0u8; 21]; v[20 - k / 8] = 1 << (k % 8); v };
         let sub1 = |mut v: Vec<u8>| -> Vec<u8> { for i in (0..v.len()).rev() { if v[i] == 0 { v[i] = 0xFF } else { v[i] -= 1; break } } v };
@@ -912,6 +1030,15 @@ fn main() {
             match guard(|| Serial::from_str(st).ok().map(|s| s.into_array())) {
                 Err(p) => lf.fail("C17.serial.no_panic", wit, || p.clone()),
                 Ok(got) => {
+                    // Deserialize as a route: a JSON string must get the verdict and value of FromStr; Serialize must write the Display text
+                    match guard(|| { let q = serde_json::to_string(st).unwrap(); let d = serde_json::from_str::<Serial>(&q).ok();
+                        (d.map(|s| s.into_array()), d.map(|s| (serde_json::to_string(&s).ok(), serde_json::to_string(&s.to_string()).ok()))) }) {
+                        Err(p) => lf.fail("C17.serial.no_panic", || format!("serde {}", wit()), || p.clone()),
+                        Ok((d, ser)) => {
+                            if d != got { lf.fail("C17.serial.text.serde", wit, || format!("Deserialize gives {:?}, FromStr gives {:?}", d.map(|x| hex(&x)), got.map(|x| hex(&x)))) }
+                            if let Some((a, b)) = ser { if a != b { lf.fail("C17.serial.text.serde", wit, || format!("Serialize writes {:?}, Display is {:?}", a, b)) } }
+                        }
+                    }
                     if st.is_empty() { sp.outcome(if got.is_some() { "empty-string-accepted-unjudged" } else { "empty-string-rejected-unjudged" }); continue }
                     match (want, got) {
                         (Some(w), Some(g)) => { sp.outcome("accepted"); if w != g { lf.fail("C17.serial.text.parse", wit, || format!("parsed as {} expected {}", hex(&g), hex(&w))) } }
@@ -1221,6 +1348,166 @@ fn main() {
         sp.sample_str(|| "route=Time::from_str(\"2016-12-31T23:59:60Z\") value=2016-12-31T23:59:59Z+1000000000ns".to_string());
     }
     sp.done(true, "24 anchors x 7 sub-second / leap forms x all routes");
+
+    // ---------------------------------------------------------------- (15)
+    let subj = subjects();
+    let baseline: Vec<String> = subj.iter().map(|(_, a)| { let a = a.clone(); on_fresh_thread(move || observe(&a)) }).collect();
+    let sp = ctx.space("history.independent",
+        "sequences instead of single evaluations: for every predecessor p (successful decodes of every real date of a leap and an ordinary year; decode failures with a bad character at every position and at every truncation; Validity TLVs cut at every length; encoders into a sink that is full / breaks after k octets for every k in 0..=36; Serial text failing at every digit, overflowing, INTEGERs of 0..23 octets; two panicking calls; clock readers; failing verify / verify_at; every subject) a dedicated OS thread runs p, then all subjects in order, then all subjects in reverse order; every observation (everything the call returns, as text) must equal the observation of the same subject evaluated first thing on its own fresh thread; thorough: all ordered pairs (p1, p2) of a 60-element selection as well; non-trivial = every (sequence, subject) evaluation");
+    {
+        let preds = predecessors(thorough);
+        let run_seq = |names: Vec<String>, acts: Vec<Act>| {
+            let subj2: Vec<(String, Act)> = subj.clone();
+            let seen: Vec<(usize, String)> = on_fresh_thread(move || {
+                for a in &acts { let _ = observe(a); }
+                let mut out = Vec::new();
+                for (i, (_, a)) in subj2.iter().enumerate() { out.push((i, observe(a))) }
+                for (i, (_, a)) in subj2.iter().enumerate().rev() { out.push((i, observe(a))) }
+                out
+            });
+            let mut lf = Lf::new(&ctx);
+            let mut same = 0u64;
+            for (k, (i, o)) in seen.iter().enumerate() {
+                if *o == baseline[*i] { same += 1 } else {
+                    lf.fail("C17.history.independent", || format!("after [{}] subject [{}] ({} pass)", names.join("; "), subj[*i].0, if k < subj.len() { "first" } else { "reverse" }),
+                        || format!("observed {o} but on a fresh thread the same call gives {}", baseline[*i]));
+                }
+            }
+            sp.evals(seen.len() as u64); sp.nontrivial(seen.len() as u64); sp.traces(1);
+            sp.outcomes_n("same-as-fresh-thread", same); sp.outcomes_n("differs-from-fresh-thread", seen.len() as u64 - same);
+        };
+        preds.par_iter().for_each(|(n, a)| run_seq(vec![n.clone()], vec![a.clone()]));
+        let mut bound = format!("{} predecessors x {} subjects x 2 passes", preds.len(), subj.len());
+        if thorough {
+            let sel: Vec<&(String, Act)> = preds.iter().step_by((preds.len() / 60).max(1)).collect();
+            let pairs: Vec<(usize, usize)> = (0..sel.len()).flat_map(|i| (0..sel.len()).map(move |j| (i, j))).collect();
+            pairs.par_iter().for_each(|&(i, j)| run_seq(vec![sel[i].0.clone(), sel[j].0.clone()], vec![sel[i].1.clone(), sel[j].1.clone()]));
+            bound.push_str(&format!(" + all {} ordered pairs of {} predecessors", pairs.len(), sel.len()));
+        }
+        sp.outcome("baseline"); // the fresh-thread observations themselves
+        sp.set("subjects", serde_json::json!(subj.iter().map(|s| s.0.clone()).collect::<Vec<_>>()));
+        sp.set("predecessors", serde_json::json!(preds.len()));
+        sp.sample_str(|| format!("after [{}] subject [{}] -> {}", preds[31].0, subj[7].0, baseline[7]));
+        sp.done(true, &bound);
+    }
+
+    let sp = ctx.space("history.date_memo",
+        "decode history over whole years: for every real date p of 2024 and 2023 (thorough: 2000, 1900, 2100 too) a dedicated OS thread decodes p successfully and then every GeneralizedTime string of that year whose month and day fields run over 00..99 x 00..99 (all 10000, valid and invalid) through take_from and take_opt_from: the invalid ones must still be rejected and the valid ones must give their own date (model parser); non-trivial = every (predecessor, subject) pair; the UTCTime form likewise for the first and last day of each month as predecessor");
+    {
+        let years: Vec<i64> = if thorough { vec![2024, 2023, 2000, 1900, 2100] } else { vec![2024, 2023] };
+        let mut preds: Vec<(i64, u32, u32, u8)> = Vec::new();
+        for &y in &years { for mo in 1..=12u32 { for d in 1..=dim(y, mo) { preds.push((y, mo, d, GEN)); if (d == 1 || d == dim(y, mo)) && (1950..=2049).contains(&y) { preds.push((y, mo, d, UTC)) } } } }
+        preds.par_iter().for_each(|&(y, mo, d, tag)| {
+            let res: (u64, u64, u64, Vec<(Vec<u8>, String)>) = on_fresh_thread(move || {
+                let p = model_encode(y, mo, d, 43200, Some(tag));
+                let mut bad: Vec<(Vec<u8>, String)> = Vec::new();
+                let (mut n, mut acc, mut rej) = (0u64, 0u64, 0u64);
+                if guard(|| lib_take(&p)).ok().and_then(|r| r.ok()).is_none() { bad.push((p.clone(), "the predecessor itself was not decoded".into())) }
+                for m2 in 0..100u32 { for d2 in 0..100u32 {
+                    let text = if tag == GEN { format!("{y:04}{m2:02}{d2:02}120000Z") } else { format!("{:02}{m2:02}{d2:02}120000Z", y % 100) };
+                    let b = tlv(tag, text.as_bytes());
+                    let want = match model_parse(tag, text.as_bytes()) { Judged::Valid(ts) => Some((ts, 0u32)), _ => None };
+                    n += 1;
+                    match guard(|| (lib_take(&b).ok(), lib_take_opt(&b).ok().flatten())) {
+                        Err(pn) => bad.push((b, pn)),
+                        Ok((a, o)) => {
+                            if a != want || o != want { if bad.len() < 8 { bad.push((b, format!("take_from gives {:?}, take_opt_from {:?}, the string names {:?}", a.map(|x| render_ts(x.0)), o.map(|x| render_ts(x.0)), want.map(|x| render_ts(x.0))))) } }
+                            if want.is_some() { acc += 1 } else { rej += 1 }
+                        }
+                    }
+                }}
+                (n, acc, rej, bad)
+            });
+            let mut lf = Lf::new(&ctx);
+            for (b, d2) in &res.3 { lf.fail("C17.history.independent", || format!("after decoding {y:04}-{mo:02}-{d:02} ({}): {}", if tag == GEN { "GeneralizedTime" } else { "UTCTime" }, show(b)), || d2.clone()) }
+            sp.evals(2 * res.0); sp.nontrivial(res.0); sp.traces(1); sp.outcomes_n("valid-subject", res.1); sp.outcomes_n("invalid-subject", res.2);
+        });
+        sp.sample_str(|| "after decoding 2024-02-01: 20240133120000Z must still be rejected".to_string());
+        sp.done(true, &format!("{} predecessors x 10000 month/day field values", preds.len()));
+    }
+
+    // ---------------------------------------------------------------- (16)
+    let sp = ctx.space("environment.tz",
+        "the subject set re-run in child processes of this binary with TZ = UTC, America/Los_Angeles, Pacific/Kiritimati, PST8PDT,M3.2.0,M11.1.0 and <+14>-14 (set before the process starts, so before any thread exists): every observation (decode, encode, Display / to_rfc3339 / Debug of a Time, FromStr, serde, years_from_date, verify_at, wide-window verify, Serial text and DER) must equal the observation in this process; non-trivial = every (zone, subject) pair");
+    {
+        let zones = ["UTC", "America/Los_Angeles", "Pacific/Kiritimati", "PST8PDT,M3.2.0,M11.1.0", "<+14>-14"];
+        let exe = std::env::current_exe();
+        let mut lf = Lf::new(&ctx);
+        for z in zones {
+            let out = exe.as_ref().ok().and_then(|e| std::process::Command::new(e).arg("--c17-observe").env("TZ", z).output().ok());
+            match out {
+                Some(o) if o.status.success() => {
+                    let text = String::from_utf8_lossy(&o.stdout).to_string();
+                    let lines: Vec<&str> = text.lines().collect();
+                    if lines.len() != subj.len() { ctx.machinery_error(format!("TZ child printed {} lines for {} subjects", lines.len(), subj.len())); continue }
+                    for (i, l) in lines.iter().enumerate() {
+                        sp.eval(); sp.nontrivial(1);
+                        let got = l.split_once('\t').map(|x| x.1).unwrap_or("");
+                        if got == baseline[i].replace('\n', " ") { sp.outcome("same-as-here") } else {
+                            sp.outcome("differs");
+                            lf.fail("C17.environment.tz", || format!("TZ={z} subject [{}]", subj[i].0), || format!("observed {got}, in this process {}", baseline[i]));
+                        }
+                    }
+                    sp.outcome("zone-run");
+                }
+                Some(o) => { sp.eval(); lf.fail("C17.environment.tz", || format!("TZ={z}"), || format!("the child process ended with {:?}: {}", o.status.code(), String::from_utf8_lossy(&o.stderr))) }
+                None => ctx.machinery_error(format!("cannot run the TZ child process for {z}")),
+            }
+        }
+    }
+    sp.done(true, "5 zones x all subjects");
+
+    let sp = ctx.space("environment.clock",
+        "the argument-less clock readers after an earlier call on the same thread: each case on its own OS thread, cases in parallel; optionally prime with verify() on a wide window / Time::now(), wait {0, 20, 300, 850} ms, read now = Time::now(), then (a) the window [now, now + 1 h] must verify, (b) [now - 1 h, now - 5 ms] must not, (c) [now - 1 h, now + 200 ms] must verify now and must not after a 300 ms sleep; each verdict is compared with verify_at(Time::now()) taken immediately before and after the call and judged only when those two agree; Time::now-based constructors (now, tomorrow, five_minutes_ago, Validity::from_secs) read twice 40 ms apart must advance by at least 40 ms; non-trivial = every judged verdict");
+    {
+        let mut cases: Vec<(u8, u64)> = Vec::new();
+        for prime in 0..3u8 { for wait in [0u64, 20, 300, 850] { cases.push((prime, wait)) } }
+        let results: Vec<Vec<(String, Option<bool>, bool, String)>> = cases.par_iter().map(|&(prime, wait)| on_fresh_thread(move || {
+            let ms = std::time::Duration::from_millis;
+            let mut out: Vec<(String, Option<bool>, bool, String)> = Vec::new(); // (what, bracket verdict if both agree, verify(), detail)
+            let r = guard(|| {
+                match prime { 1 => { let _ = Validity::new(mk_time(0, 0), mk_time(4102444800, 0)).verify(); } 2 => { let _ = (Time::now(), Validity::from_secs(1).verify()); } _ => {} }
+                std::thread::sleep(ms(wait));
+                let mut res = Vec::new();
+                let mut probe = |what: &str, w: Validity| {
+                    let a = w.verify_at(Time::now()).is_ok(); let v = w.verify().is_ok(); let b = w.verify_at(Time::now()).is_ok();
+                    res.push((what.to_string(), if a == b { Some(a) } else { None }, v, format!("verify_at(Time::now()) before: {a}, after: {b}")));
+                };
+                let now = Time::now();
+                let h = TimeDelta::hours(1);
+                probe("window starting now [now, now+1h]", Validity::new(now, now + h));
+                probe("window that ended 5 ms ago [now-1h, now-5ms]", Validity::new(now - h, now - TimeDelta::milliseconds(5)));
+                let w3 = Validity::new(now - h, now + TimeDelta::milliseconds(200));
+                probe("window ending in 200 ms, asked at once", w3);
+                std::thread::sleep(ms(300));
+                probe("window that ended 100 ms ago (asked again after 300 ms)", w3);
+                let now2 = Time::now();
+                probe("window starting now, after the sleep", Validity::new(now2, now2 + h));
+                // constructors must not be frozen
+                for (name, f) in [("Time::now", (|| inst(Time::now())) as fn() -> (i64, u32)), ("Time::tomorrow", || inst(Time::tomorrow())), ("Time::five_minutes_ago", || inst(Time::five_minutes_ago())),
+                    ("Validity::from_secs(60).not_after", || inst(Validity::from_secs(60).not_after())), ("Validity::from_secs(-60).not_before", || inst(Validity::from_secs(-60).not_before()))] {
+                    let t1 = f(); std::thread::sleep(ms(40)); let t2 = f();
+                    let adv = (t2.0 - t1.0) * 1_000_000_000 + t2.1 as i64 - t1.1 as i64;
+                    res.push((format!("{name} read twice 40 ms apart"), Some(true), adv >= 40_000_000, format!("advanced by {adv} ns")));
+                }
+                res
+            });
+            match r { Ok(v) => out.extend(v), Err(p) => out.push(("panic".into(), Some(true), false, p)) }
+            out
+        })).collect();
+        let mut lf = Lf::new(&ctx);
+        for ((prime, wait), res) in cases.iter().zip(results.iter()) {
+            for (what, want, got, detail) in res {
+                sp.eval();
+                match want {
+                    None => sp.outcome("bracket-disagrees-unjudged"),
+                    Some(w) => { sp.nontrivial(1); sp.outcome(if *got { "accepted-or-advanced" } else { "rejected" });
+                        if w != got { lf.fail("C17.environment.clock", || format!("prime={} wait={wait}ms: {what}", ["nothing", "verify() on a wide window", "Time::now + from_secs(1).verify()"][*prime as usize]), || format!("the argument-less call says {got}; {detail}")) } }
+                }
+            }
+        }
+    }
+    sp.done(true, "12 cases x 10 probes");
 
     // ---------------------------------------------------------------- (14)
     let sp = ctx.space("encode.writers",
